@@ -100,3 +100,44 @@ def snapshotsSafe (cleared : List (String × String)) (snaps inpl : List (String
   snaps.all fun s => cleared.contains (s.1, s.2.2) || !(inpl.any fun w => w.1 == s.1 && w.2.2 == s.2.2)
 
 end Uniflow.Lockset
+
+namespace Uniflow.Lockset
+open Uniflow.Generated.Locks
+
+/-! ### pointer elements that leave the object
+
+A container field may hold pointers (`frames : map[uuid.UUID][]*Frame`) that are also handed out –
+returned by an exported method or passed to watchers/hooks. The lock-set rule only sees the
+container field; a write *through* such an element (`f.InPck = pck`) is invisible to it although the
+receiver of the pointer reads the struct without the lock. -/
+
+/-- Writes through element pointers whose struct type leaves the object (`ews`, `pubs`: the
+generated `elemWrites`, `publishedElems`). -/
+def publishedWritesOf (ews : List (String × String × String × String × String))
+    (pubs : List (String × String × String)) : List (String × String × String × String × String) :=
+  ews.filter fun w => pubs.any fun p => p.1 == w.1 && p.2.1 == w.2.2.2.1
+
+def publishedElemWrites : List (String × String × String × String × String) :=
+  publishedWritesOf elemWrites publishedElems
+
+/-! ### call-outs under a read lock
+
+Code outside the modelled objects that runs while a mutex is only *read*-held may call back into a
+method that read-locks the same mutex; Go's RWMutex blocks that nested RLock as soon as a writer
+is waiting (the assemblers' `Compile` did exactly this). Only objects that have a writer matter. -/
+
+def hasWriter (qualifiedMutex : String) : Bool :=
+  acquires.any fun a => a.excl && (a.typ ++ "." ++ a.lock) == qualifiedMutex
+
+def readLockCallouts : List (String × String × String) :=
+  ((calls.filter fun c =>
+      ((c.dynamic && !c.valueIface) || (c.passesFn && c.calleeMayCallOut)) &&
+      c.held.any (fun m => !c.heldExcl.contains m && hasWriter m)).map
+    fun c => (c.typ ++ "." ++ c.meth, c.callee, c.heldStr)).eraseDups
+
+/-! ### sync objects held in fields -/
+
+def condOps : List SyncOp := syncOps.filter (·.kind == "sync.Cond")
+def waitGroupOps : List SyncOp := syncOps.filter (·.kind == "sync.WaitGroup")
+
+end Uniflow.Lockset
